@@ -267,6 +267,17 @@ func (f *fineSub) candidates(q hc.P2, smin float64) []float64 {
 // length, never more than 1e-3 of the subpath length: a short piece must hug the path closely, so a
 // piece of another subpath that merely leaves a common vertex at a small angle is not mistaken for
 // a stretch of this one.
+// curveTol: tolerance of a cut on a curved subpath, as a fraction of the longest segment. Was 1%
+// (accuracy of the fixed-order Chebyshev inverse); since 56b2370 (16-panel length + Newton/bisection
+// polish, residual <= 0.1% of the segment) the measured maximum of the mean cut error over 14
+// thorough-size sweeps (seeds 1..8, 51..56, ~10^5 curved subpaths each) is 0.058% of the longest
+// segment; 0.2% leaves a margin of 3.5.
+const curveTol = 0.002
+
+// lengthTol: Path.Length on a curved subpath, as a fraction of the longest segment (regression class
+// of 0b071bc, 8606e8f, 0869084); measured maximum in hist.
+const lengthTol = 0.005
+
 func devLimit(f, pf *fineSub) float64 {
 	return math.Min(1e-3*f.sc, 1e-4*f.sc+0.02*pf.L)
 }
@@ -441,7 +452,7 @@ func judgeDashKind(c *hc.Ctx, tag string, p *canvas.Path, off float64, d []float
 				}
 			}
 		}
-		tol := 0.01 * ksub.f.maxSeg
+		tol := curveTol * ksub.f.maxSeg
 		// cuts within the tolerance of the end are not requested: whether SplitAt makes them depends
 		// legitimately on its own total length
 		var tsIn []float64
@@ -454,7 +465,7 @@ func judgeDashKind(c *hc.Ctx, tag string, p *canvas.Path, off float64, d []float
 		lenErr := math.Abs(ksub.path.Length()-ksub.f.L) / ksub.f.maxSeg
 		c.Count("accuracy-measure: Path.Length error/longest segment " + bucket(lenErr))
 		c.Count("accuracy-measure: worst error comes from " + map[byte]string{'T': "Path.Length", 'S': "a SplitAt cut", 'P': "SplitAt panic/malformed", 'N': "SplitAt piece count"}[cause])
-		if lenErr > 0.02 {
+		if lenErr > lengthTol {
 			// since 0b071bc/8606e8f Path.Length is within 1.3% of the longest segment on every
 			// subpath met in 18 thorough-size sweeps (worst: hairpin cubic
 			// M-2.003 2.424C6 -11.016 -7.375 14.621 0.352 -1, 1.3% short); beyond 2% it is not the
@@ -542,7 +553,7 @@ func judgeDash1(c *hc.Ctx, tag string, p *canvas.Path, off float64, d []float64,
 				sm = smin
 				if !subs[kk].straight {
 					// cuts may be off by the tolerance, so consecutive pieces may overlap by that much
-					sm = math.Max(0, smin-0.01*subs[kk].maxSeg)
+					sm = math.Max(0, smin-curveTol*subs[kk].maxSeg)
 				}
 			}
 			o, ok := locate(&subs[kk], &pf, sm)
@@ -551,12 +562,12 @@ func judgeDash1(c *hc.Ctx, tag string, p *canvas.Path, off float64, d []float64,
 				// following pieces start again from arc length 0
 				o, ok = locate(&subs[kk], &pf, 0)
 			}
-			if !(ok && o.dev < devLimit(&subs[kk], &pf)) && !subs[kk].straight && pf.L <= 0.02*subs[kk].maxSeg {
+			if !(ok && o.dev < devLimit(&subs[kk], &pf)) && !subs[kk].straight && pf.L <= 2*curveTol*subs[kk].maxSeg {
 				// a piece shorter than twice the cut tolerance that runs backwards along the path (the
 				// approximated inverse arc length is not monotone within its accuracy): its extent
 				// is within the tolerance of where it should be, take the stretch it covers
 				rv := reversed(&pf)
-				if o2, ok2 := locate(&subs[kk], &rv, math.Max(0, sm-0.02*subs[kk].maxSeg)); ok2 && o2.dev < devLimit(&subs[kk], &pf) {
+				if o2, ok2 := locate(&subs[kk], &rv, math.Max(0, sm-2*curveTol*subs[kk].maxSeg)); ok2 && o2.dev < devLimit(&subs[kk], &pf) {
 					o, ok = o2, true
 					c.Count(tag + ":tolerated backward piece shorter than 2% of the longest segment")
 				}
@@ -649,13 +660,23 @@ func judgeDash1(c *hc.Ctx, tag string, p *canvas.Path, off float64, d []float64,
 			c.Case(sb.String(), "!", "lean-verdict:"+tag)
 			c.Count(tag + ":verdict decided in Lean")
 		}
+		if !f.straight && sj[kk].path != nil {
+			le := math.Abs(sj[kk].path.Length()-f.L) / f.maxSeg
+			c.Count(tag + ":Path.Length error/longest segment " + bucket(le))
+			if le*1e6 > maxLenErrPPM {
+				maxLenErrPPM = le * 1e6
+				maxLenErrCase = sj[kk].path.String()
+			}
+			if le > lengthTol {
+				return "length-accuracy", fmt.Sprintf("subpath %d: Path.Length = %.9g, true length %.9g: off by %.3g%% of the longest segment (bound %.2g%%)", kk, sj[kk].path.Length(), f.L, 100*le, 100*lengthTol), nil
+			}
+		}
 		nb := 2*len(want) + 2
 		// Relative to the size of the subpath (the property must hold whatever the unit of the
-		// coordinates): 1% of the longest segment on curves (the accuracy of the Chebyshev inverse
-		// arc length, itself relative: bisection stops at 0.1% of the segment length); on straight
+		// coordinates): curveTol (0.2%) of the longest segment on curves (see curveTol); on straight
 		// subpaths 1e-7 of the length plus 1e-9, the latter for the library's absolute Epsilon = 1e-10
 		// in `pos+d[i]+Epsilon < length` (never looser than the former 1e-7*(1+L)).
-		tolCut := 0.01*f.maxSeg + 1e-6*f.sc
+		tolCut := curveTol*f.maxSeg + 1e-6*f.sc
 		if f.straight {
 			tolCut = 1e-7*f.sc + 1e-9
 		}
@@ -1082,7 +1103,8 @@ func hasCubic(segs []hc.Seg) bool {
 	return false
 }
 
-var maxScaleDevPPM float64
+var maxScaleDevPPM, maxLenErrPPM float64
+var maxLenErrCase string
 
 // runDashCase runs the real Dash on one input and judges the result; ran=false when Dash was not
 // called or did not return normally (q is nil when the path itself was returned).
@@ -1269,5 +1291,9 @@ func finishHist(c *hc.Ctx) {
 		}
 	}
 	c.Hist["observed-max metamorphic deviation under 2^k scaling (ppm of longest segment)"] = int(math.Ceil(maxScaleDevPPM))
+	c.Hist["observed-max Path.Length error on curved subpaths (ppm of longest segment)"] = int(math.Ceil(maxLenErrPPM))
+	if maxLenErrCase != "" {
+		c.Sample(fmt.Sprintf("largest Path.Length error %.0f ppm of the longest segment: %s", maxLenErrPPM, maxLenErrCase))
+	}
 	c.Hist["observed-max piece deviation from path (ppm of length)"] = int(math.Ceil(maxDevPPM))
 }
